@@ -1203,15 +1203,57 @@ def read_tree(root):
     return out
 
 
+_HAZ = re.compile(r'["\\\n]')
+
+
+def text_hazards(api):
+    """spec-supplied texts of the API that need escaping where they are printed inside a string literal"""
+    from stone.ir import List, Map, Nullable, String, Timestamp
+    haz = {'default': [], 'pattern': [], 'format': [], 'attr': []}
+
+    def walk(t):
+        if isinstance(t, Nullable) or isinstance(t, List):
+            walk(t.data_type)
+        elif isinstance(t, Map):
+            walk(t.key_data_type)
+            walk(t.value_data_type)
+        elif isinstance(t, String) and t.pattern and _HAZ.search(t.pattern):
+            haz['pattern'].append(t.pattern)
+        elif isinstance(t, Timestamp) and _HAZ.search(t.format):
+            haz['format'].append(t.format)
+        elif hasattr(t, 'data_type') and not hasattr(t, 'fields'):
+            walk(t.data_type)                                  # alias
+    for ns in api.namespaces.values():
+        for dt in ns.data_types:
+            for f in dt.fields:
+                walk(f.data_type)
+                v = getattr(f, 'default', None) if getattr(f, 'has_default', False) else None
+                if isinstance(v, str) and _HAZ.search(v):
+                    haz['default'].append(v)
+        for r in ns.routes:
+            for part in (r.arg_data_type, r.result_data_type, r.error_data_type):
+                walk(part)
+            for v in r.attrs.values():
+                if isinstance(v, str) and _HAZ.search(v):
+                    haz['attr'].append(v)
+    return haz
+
+
 def lexical_cause(what, text_line, api):
-    """attribute a lexical problem to a known construct (so that a DIFFERENT malformed output keeps cause 'unknown')"""
-    if api is not None:          # whatever the lexer trips over first on a line that prints such a default verbatim
-        for ns in api.namespaces.values():
-            for dt in ns.data_types:
-                for f in dt.fields:
-                    v = getattr(f, 'default', None) if getattr(f, 'has_default', False) else None
-                    if isinstance(v, str) and re.search(r'["\\\n]', v) and v in text_line:
-                        return 'string-default-unescaped'
+    """attribute a lexical problem to the printing SITE of a spec-supplied text (so that a different malformed output
+    keeps cause 'unknown' and the sites do not mask each other): Timestamp format, route attribute, String pattern,
+    default value -- in this order, by the marker of the site on the offending line"""
+    haz = text_hazards(api) if api is not None else {'default': [], 'pattern': [], 'format': [], 'attr': []}
+    if haz['format'] and ('NSDateSerializer(' in text_line or 'dateFormat:@' in text_line):
+        return 'timestamp-format-unescaped'
+    if any(v in text_line for v in haz['attr']) and \
+            (re.search(r'@"\w+": @"', text_line) or re.search(r'(^\s*|RouteAttributes\()\w+: \[?\.', text_line)):
+        return 'route-attr-unescaped'
+    if 'pattern:' in text_line:
+        if haz['pattern'] or not any(v in text_line for v in haz['default']):
+            return 'string-pattern-escaping'
+    if any(v in text_line for v in haz['default']):
+        return 'string-default-unescaped'
     if what == 'mismatched-bracket' and re.search(r'\(arg( \})+\)', text_line):
         return 'objc-union-arg-nested-list'
     return 'unknown'
@@ -1611,6 +1653,12 @@ FAMILIES = {
     'clean_types': dict(base='default', p_stone_cfg=0.0, p_route_exotic=0.0, p_doc_ref=0.0, n_defs=(6, 14),
                         p_subtypes=0.3, p_container=0.35, p_nullable=0.3, p_default=0.4, p_route_path=0.1,
                         w_kind=dict(struct=5.0, union=3.0, alias=1.5, route=2.5, annotation=0.3, annotation_type=0.1)),
+    # 'text': clean + characters that need escaping in every spec-supplied text (patterns, docs); 'text_findings'
+    # additionally Timestamp formats and string route attributes, which the unchanged backends print verbatim
+    'text': dict(base='routes', p_stone_cfg=0.0, p_route_exotic=0.0, p_doc_ref=0.0, n_defs=(5, 11), p_container=0.3,
+                 p_subtypes=0.2, p_weird_name=0.0, p_doc=0.5),
+    'text_findings': dict(base='routes', p_stone_cfg=0.0, p_route_exotic=0.0, p_doc_ref=0.0, n_defs=(5, 11),
+                          p_container=0.3, p_subtypes=0.2, p_weird_name=0.0, p_doc=0.5),
     'full': dict(base='routes', p_stone_cfg=0.0, n_defs=(6, 14), p_route_exotic=0.15, p_doc=0.5, p_doc_ref=0.6,
                  p_weird_name=0.15, p_route_path=0.1, p_subtypes=0.3, p_container=0.4),
 }
@@ -1664,14 +1712,76 @@ def steer_clean(model):
     return model
 
 
+HAZ_PATTERNS = ('[^"/]+', '"[a-z]+"', '\\d{2}"\\d', 'a\\\\b"?', '[^"]*', 'x"y', '"?[a-z]+', '(\\w+\\.)*"', '\\\\+"')
+HAZ_FORMATS = ('%Y"%m', '%H:%M\\', '%d "%b" %Y"', '\\"%Y')
+HAZ_ATTRS = ('files"read', 'up\\', 'a "b', 'x\\"y"')
+HAZ_DOCS = ('ends */ here', '/* opens', '"quoted"', 'one " quote', 'back\\slash', 'trailing \\', '*/ "*/ \\"',
+            'line one\nline two */', '\\')
+
+
+def spice_text(model, rng, findings=True):
+    """put characters that need escaping into every kind of spec-supplied text the six invocations print: String
+    patterns (new nullable fields / union tags, plain and below List / Map), documentation of every item, and -- known
+    findings -- Timestamp formats and string route attributes"""
+    from harness import specgen as sg
+    n = [0]
+
+    def fresh(prefix):
+        n[0] += 1
+        return '%s%d' % (prefix, n[0])
+
+    def pat():
+        return sg.TypeRef('String', kwargs={'pattern': rng.choice(HAZ_PATTERNS)})
+
+    def add_doc(d):
+        extra = rng.choice(HAZ_DOCS)
+        return (d + ' ' + extra) if d else ('Text ' + extra)
+    for ns in model.namespaces:
+        if ns.name == 'stone_cfg':
+            continue
+        if rng.random() < 0.5:
+            ns.doc = add_doc(ns.doc)
+        for d in ns.defs:
+            if d.kind in ('struct', 'union', 'route') and rng.random() < 0.5:
+                d.doc = add_doc(d.doc)
+            if d.kind == 'struct':
+                for f in d.fields:
+                    if rng.random() < 0.3:
+                        f.doc = add_doc(f.doc)
+                if rng.random() < 0.6:
+                    k = rng.random()
+                    t = pat()
+                    if k < 0.25:
+                        t = sg.TypeRef('List', args=[t])
+                    elif k < 0.4:
+                        t = sg.TypeRef('Map', args=[sg.TypeRef('String'), t])
+                    t.nullable = True
+                    d.fields.append(sg.Field(fresh('spice_p'), t, doc=add_doc(None) if rng.random() < 0.5 else None))
+                if findings and rng.random() < 0.12:
+                    d.fields.append(sg.Field(fresh('spice_ts'), sg.TypeRef('Timestamp', args=[rng.choice(HAZ_FORMATS)],
+                                                                           nullable=True)))
+            elif d.kind == 'union':
+                for f in d.tags:
+                    if rng.random() < 0.3:
+                        f.doc = add_doc(f.doc)
+                if rng.random() < 0.5:
+                    d.tags.append(sg.Field(fresh('spice_t'), pat(), doc=add_doc(None) if rng.random() < 0.5 else None))
+            elif d.kind == 'route':
+                if findings and rng.random() < 0.1:
+                    d.attrs[rng.choice(('scope', 'host'))] = rng.choice(HAZ_ATTRS)
+    return model
+
+
 def gen_case(seed, family):
     import random
     from harness import specgen as sg
     rng = random.Random('c17/%s/%s' % (family, seed))
     model = sg.gen_model(rng, FAMILIES[family])
     add_route_schema(model, rng)
-    if family.startswith('clean'):
+    if family.startswith('clean') or family.startswith('text'):
         steer_clean(model)
+    if family.startswith('text'):
+        spice_text(model, rng, findings=(family == 'text_findings'))
     specs = sg.render(model, None)
     opts = {'sw_auth': 'app' if rng.random() < 0.2 else None, 'oc_auth': rng.choice(('user', 'user', 'app', 'team'))}
     return {'suite': 'decl.swift.spec', 'origin': 'gen:%s:%s' % (family, seed), 'specs': [list(x) for x in specs],
@@ -2083,7 +2193,8 @@ def _features(aj):
 def suite_specs(ck):
     import multiprocessing
     tasks = [('case', c) for c in seed_cases()]
-    for fam, n in (('clean', ck.scale(70, 1200)), ('clean_types', ck.scale(50, 900)), ('full', ck.scale(30, 500))):
+    for fam, n in (('clean', ck.scale(60, 1100)), ('clean_types', ck.scale(40, 800)), ('text', ck.scale(35, 600)),
+                   ('text_findings', ck.scale(10, 200)), ('full', ck.scale(25, 450))):
         for _ in range(n):
             tasks.append(('gen', (ck.rng.getrandbits(32), fam)))
     ctx = multiprocessing.get_context('fork')
